@@ -22,12 +22,13 @@ META = {
             "the name section must be the bytes the Lean decoder saw; the name section bytes are compared with encode(buildNames(text)); the 29 "
             "stored WABT outputs are compared section by section with Wa's bytes (and validate the Python reference itself).",
     "note": "WABT is not installed: the reference is the Python reader (validated against the stored WABT outputs on every run), V8 and the "
-            "Lean codec. Instruction bodies are NOT re-encoded independently: code is covered by V8 validation and by byte equality with WABT "
-            "on the stored corpus only. Export order is compared as a multiset (Wa lists inline exports last; WABT in text order).",
+            "Lean codec. Instruction bodies are re-encoded by an independent Python encoder of the flat syntax (opcode table, LEB immediates, "
+            "nearest-enclosing label resolution; byte-equal to WABT on all stored outputs, re-checked every run) and compared function by function; "
+            "that part is differential, not proved. Export order is compared as a multiset (Wa lists inline exports last; WABT in text order).",
     "technique": "Lean 4 proof over hand-written codec/name-section model + per-module translation validation (Lean decoder vs Python text reader, V8, stored WABT outputs)",
 }
 REQUIRED = ["decU32_encU32", "decName_encName", "decVec_encVec", "decLimits_encLimits", "decodeModule_encodeModule",
-            "decodeNameSec_encodeNameSec", "names_strictly_increasing", "names_assign_written_name"]
+            "decodeNameSec_encodeNameSec", "names_strictly_increasing", "names_assign_written_name", "label_resolve_nearest"]
 
 TRIGGERS = ["start", "start-not-first", "select-typed", "nop", "f64-global", "dup-type", "type-param-names", "import-param-names",
             "unnamed-func", "numeric-ident", "export-func-separate"]
@@ -344,6 +345,26 @@ def run(ctx):
             tie["dump_equal"] += 1
         for key, what in diffs:
             viol(r, key, what)
+        # CODE: the independent Python encoder of the flat instruction syntax (validated against the stored WABT
+        # outputs below) against the bytes of the real assembler, function by function
+        try:
+            mine = W.encode_code_functions(r["mod"])
+        except (W.WatError, ValueError, IndexError, KeyError, TypeError) as e:
+            mine = None
+            dist["code_reference_unsupported"] = dist.get("code_reference_unsupported", 0) + 1
+        if mine is not None:
+            theirs = W.split_code_section(secs["code"]) if "code" in secs else []
+            tie["code_compared"] = tie.get("code_compared", 0) + 1
+            tie["code_functions"] = tie.get("code_functions", 0) + len(mine)
+            if mine == theirs:
+                tie["code_equal"] = tie.get("code_equal", 0) + 1
+            else:
+                j = next((x for x in range(min(len(mine), len(theirs))) if mine[x] != theirs[x]), min(len(mine), len(theirs)))
+                a = mine[j].hex() if j < len(mine) else "<absent>"
+                b = theirs[j].hex() if j < len(theirs) else "<absent>"
+                k = next((x for x in range(min(len(a), len(b))) if a[x] != b[x]), 0) & ~1
+                viol(r, "code:function-body-differs", "function %d: the text describes …%s, the binary has …%s (byte offset %d)" % (
+                    j, a[max(0, k - 8):k + 24], b[max(0, k - 8):k + 24], k // 2))
         # the model's name section for this text, encoded with the proved encoder, against the real bytes
         mo = mouts[len(oks) + i].split()
         if len(mo) == 3 and mo[1] == "inc=1" and mo[2] == "rt=1":
@@ -357,6 +378,23 @@ def run(ctx):
         else:
             ctx.corr["diffs"] += 1
             ctx.proof["broken"].append({"theorem": "names_strictly_increasing / decode_encode (executed)", "why": "%s: driver says %r" % (r["label"], mouts[len(oks) + i][:200])})
+
+    # ---------------------------------------------------------------- label resolution: model vs the real findLabelIndex
+    lab_ops_h, lab_ops_m = [], []
+    names = ["a", "b", "L1", "$x", "loop.1", "a"]
+    for _ in range(1500 if ctx.tier == "quick" else 30000):
+        depth = ctx.rng.randrange(0, 7)
+        scope = [ctx.rng.choice(names + [None, None]) for _ in range(depth)]          # outermost first
+        lab = ctx.rng.choice(names + ["zz"])
+        enc = lambda x: "-" if x is None else x.encode().hex()
+        lab_ops_h.append("label %s %s" % (lab.encode().hex(), " ".join(enc(x) for x in scope)))
+        lab_ops_m.append("label %s %s" % (lab.encode().hex(), " ".join(enc(x) for x in reversed(scope))))
+    lh = run_chunks(ctx, h, lab_ops_h, nproc=2)
+    lm = run_chunks(ctx, model, lab_ops_m, nproc=2)
+    for i, op, a, b in ctx.diff_lines(lab_ops_h, lh, lm)[:10]:
+        ctx.proof["broken"].append({"theorem": "correspondence C04 resolveLabel vs findLabelIndex", "why": "op %r impl=%r model=%r" % (op, a, b)})
+    tie["label_ops"] = len(lab_ops_h)
+    tie["label_resolved"] = sum(1 for x in lh if x.startswith("some"))
 
     # ---------------------------------------------------------------- the stored WABT outputs
     wabt = {"files": 0, "reference_reader_equal": 0, "wa_sections_equal": 0, "wa_bytes_equal": 0}
@@ -381,6 +419,16 @@ def run(ctx):
                 # my reference disagrees with WABT: the check's own reference is wrong here
                 ctx.proof["broken"].append({"theorem": "reference reader vs stored WABT output", "why": "%s: %s" % (
                     os.path.basename(p), [(k, e.get(k), g.get(k)) for k in sorted(set(e) | set(g)) if e.get(k) != g.get(k)][:3])})
+        if r["mod"] is not None:
+            try:
+                cm = W.encode_code_functions(r["mod"])
+                cref = sections(ref).get("code")
+                if cm == (W.split_code_section(cref) if cref else []):
+                    wabt["reference_code_encoder_equal"] = wabt.get("reference_code_encoder_equal", 0) + 1
+                else:
+                    ctx.proof["broken"].append({"theorem": "reference code encoder vs stored WABT output", "why": os.path.basename(p)})
+            except (W.WatError, ValueError, IndexError, KeyError, TypeError) as e:
+                ctx.proof["broken"].append({"theorem": "reference code encoder vs stored WABT output", "why": "%s: %r" % (os.path.basename(p), e)})
         if r["st"] != "ok":
             continue
         s1, s2 = sections(r["w"]), sections(ref)
@@ -413,6 +461,6 @@ def run(ctx):
         "wabt_corpus": wabt,
     }
     return ctx.finish("translation_validation", cov,
-                      assumptions=["export order is compared as a multiset", "instruction bodies: V8 validation + stored WABT outputs only"],
+                      assumptions=["export order is compared as a multiset", "instruction bodies: independent Python encoder (validated against stored WABT outputs) + V8 validation"],
                       trusted_base=["independent Python WAT reader extract/c04_watread.py (validated against the stored WABT outputs on every run)",
                                     "V8 (node) as validator and custom-section extractor", "hand-written Lean codec Model/C04*.lean (decoder used for the dump)"])
